@@ -247,11 +247,11 @@ func (a *sfxAnalyzer) walk(cx *sfxCtx, st sfxState, i0 int) {
 					args := callArgs(cc)
 					n, ok := a.known(cx, &st, args[sm.dyn])
 					if !ok {
-						if lenGuarded(in) {
+						if lenGuardCovers(in, args[sm.dyn], int64(sm.dynAdd)) {
 							a.res.DynGuarded = true
 							n = 0
 						} else {
-							a.res.Undecided = fmt.Sprintf("depth argument of Stack.%s is not a known constant and not guarded by a Stack.len() check in %s", m, fnName(fn))
+							a.res.Undecided = fmt.Sprintf("depth argument of Stack.%s is not a known constant and no dominating Stack.len() check establishes len >= depth+%d in %s", m, sm.dynAdd, fnName(fn))
 							return
 						}
 					}
@@ -430,4 +430,133 @@ func (c *Ctx) stackMethodDeltas() {
 		c.Check(ok && d == sm.delta, "summary/"+m, f.Pos(), fmt.Sprintf("Stack.%s changes size by %+d as summarised", m, d),
 			fmt.Sprintf("Stack.%s changes size by %+d but the analyser's summary says %+d", m, d, sm.delta))
 	}
+}
+
+// symLin splits v into base + constant offset.
+func symLin(v ssa.Value) (ssa.Value, int64) {
+	off := int64(0)
+	for {
+		switch x := v.(type) {
+		case *ssa.Convert:
+			v = x.X
+			continue
+		case *ssa.ChangeType:
+			v = x.X
+			continue
+		case *ssa.BinOp:
+			if k, ok := x.Y.(*ssa.Const); ok && k.Value != nil && k.Value.Kind() == constant.Int {
+				n, _ := constant.Int64Val(k.Value)
+				if x.Op == token.ADD {
+					off += n
+					v = x.X
+					continue
+				}
+				if x.Op == token.SUB {
+					off -= n
+					v = x.X
+					continue
+				}
+			}
+		}
+		return v, off
+	}
+}
+
+// symGeq: guard value gx is provably >= need value (nb + nadd).
+func symGeq(gx ssa.Value, nb ssa.Value, nadd int64) bool {
+	gb, goff := symLin(gx)
+	nbb, noff := symLin(nb)
+	noff += nadd
+	if sameValue(gb, nbb) {
+		return goff >= noff
+	}
+	// max(a, b, …) >= each argument
+	if call, ok := gb.(*ssa.Call); ok {
+		if b, ok := call.Call.Value.(*ssa.Builtin); ok && b.Name() == "max" {
+			for _, a := range call.Call.Args {
+				ab, aoff := symLin(a)
+				if sameValue(ab, nbb) && goff+aoff >= noff {
+					return true
+				}
+			}
+		}
+	}
+	return false
+}
+
+// lenGuardCovers: in is dominated by an edge of `if stack.len() < X` (or an
+// equivalent spelling) on which len >= X holds, with X >= depth+add.
+func lenGuardCovers(in ssa.Instruction, depth ssa.Value, add int64) bool {
+	f := in.Parent()
+	isLen := CallRes("(*" + vmp + ".Stack).len")
+	for _, b := range f.Blocks {
+		iff, ok := b.Instrs[len(b.Instrs)-1].(*ssa.If)
+		if !ok {
+			continue
+		}
+		cond := iff.Cond
+		neg := false
+		for {
+			u, ok := cond.(*ssa.UnOp)
+			if !ok || u.Op != token.NOT {
+				break
+			}
+			cond = u.X
+			neg = !neg
+		}
+		bo, ok := cond.(*ssa.BinOp)
+		if !ok {
+			continue
+		}
+		var x ssa.Value
+		op := bo.Op
+		switch {
+		case isLen(bo.X):
+			x = bo.Y
+		case isLen(bo.Y):
+			x = bo.X
+			op = swapOp(op)
+		default:
+			continue
+		}
+		// normalised: len op x. pass edge = the one on which len >= x (or len > x-1)
+		passIdx := -1
+		bonus := int64(0)
+		switch op {
+		case token.LSS: // len < x : false edge gives len >= x
+			passIdx = 1
+		case token.GEQ:
+			passIdx = 0
+		case token.LEQ: // len <= x : false edge gives len >= x+1
+			passIdx, bonus = 1, 1
+		case token.GTR:
+			passIdx, bonus = 0, 1
+		default:
+			continue
+		}
+		if neg {
+			passIdx = 1 - passIdx
+		}
+		if !edgeDominates(Edge{b, passIdx}, in.Block()) {
+			continue
+		}
+		gb, goff := symLin(x)
+		_ = gb
+		_ = goff
+		if bonus != 0 {
+			// len >= x+1
+			if symGeqOff(x, bonus, depth, add) {
+				return true
+			}
+			continue
+		}
+		if symGeq(x, depth, add) {
+			return true
+		}
+	}
+	return false
+}
+
+func symGeqOff(gx ssa.Value, gadd int64, nb ssa.Value, nadd int64) bool {
+	return symGeq(gx, nb, nadd-gadd)
 }
